@@ -15,6 +15,10 @@ pub mod symport;
 #[cfg(kani)]
 pub mod vsign;
 #[cfg(kani)]
+pub mod frames;
+#[cfg(kani)]
+mod gen_frames;
+#[cfg(kani)]
 pub mod pages;
 #[cfg(kani)]
 mod gen_pages;
